@@ -146,4 +146,6 @@ def run(ctx):
     rep.floor('R18.4', 'transparent twins', n_equal, 8 * ns)
     from rules import profile
     profile.check(ctx, rep, 'R18.P', ['slog_start', 'sreg_start'], suites=[x + '-remote' for x in ctx.suite_names])
+    from rules import lclone
+    lclone.check(ctx, rep, 'R18.C')
     return rep
